@@ -182,6 +182,19 @@ package compile
 //@   keeps map[parse.Node]bool
 //@   preserves c.typedefChain
 //@   ensures ghost("refChecks") == old(ghost("refChecks")) + 1
+// Stacked feature checkers (MultiFeatureCheckers): the LAST checker that knows the feature decides; a feature no
+// checker knows is disabled.
+//@ func (FeaturesChecker).Status
+//@   params feature
+//@   ensures result == fc_status(self, feature)
+//@ define knows(f, k, feature) = f.checkers[k] != nil && fc_status(f.checkers[k], feature) != NOTPRESENT
+//@ func (*checkers).Status
+//@   requires f != nil
+//@   ensures implies(forall(k, 0, len(f.checkers), !knows(f, k, feature)), result == DISABLED)
+//@   ensures forall(k, 0, len(f.checkers), implies(knows(f, k, feature) && forall(j, k+1, len(f.checkers), !knows(f, j, feature)), result == fc_status(f.checkers[k], feature)))
+//@   loop 0 invariant implies(forall(k, 0, loopidx+1, !knows(f, k, feature)), status == DISABLED)
+//@   loop 0 invariant forall(k, 0, loopidx+1, implies(knows(f, k, feature) && forall(j, k+1, loopidx+1, !knows(f, j, feature)), status == fc_status(f.checkers[k], feature)))
+//@   loop 0 invariant len(looprange) == len(f.checkers) && forall(i, 0, len(looprange), looprange[i] == f.checkers[i])
 //@ func (*featuresMap).set
 //@   requires f.features != nil
 //@   modifies mapof(f.features)
